@@ -59,28 +59,30 @@ class Flat:
         return max([1] + [v.bit_length() for v in f["values"]])
 
     def maximal_conditions(self):
-        """All maximal consistent unions of field conditions (each decides a set of co-present fields)."""
+        """Consistent unions of field conditions; every set of fields that can be present together is the
+        set of fields present under one of them."""
         conds = []
-        for f in self.fields:
+        for f in sorted(self.fields, key=lambda f: len(f["cond"])):
             if f["cond"] not in conds:
                 conds.append(f["cond"])
-        best = []
+        found = []
 
         def rec(i, cur):
             if i == len(conds):
-                best.append(dict(cur))
+                found.append(cur)
                 return
             c = conds[i]
-            if self.compatible(c, cur) and self.compatible(cur, c):
+            if not (self.compatible(c, cur) and self.compatible(cur, c)):
+                rec(i + 1, cur)
+            elif all(cur.get(a) == b for a, b in c.items()):
+                rec(i + 1, cur)
+            else:
                 new = dict(cur)
                 new.update(c)
-                # the fields named in the condition must themselves be present
                 rec(i + 1, new)
-                if all(cur.get(a) == b for a, b in c.items()):
-                    return            # already implied: excluding it yields nothing new
-            rec(i + 1, cur)
+                rec(i + 1, cur)
         rec(0, {})
-        return best
+        return found
 
     def max_copresent_width(self):
         w = 0
@@ -89,14 +91,27 @@ class Flat:
         return w
 
     def exclusive_children_shape(self):
-        """No fragmentation pattern: any two conditions are either nested (one extends the other) or
-        contradictory -- then the fields present together always form a chain of scopes."""
-        cs = [f["cond"] for f in self.fields]
+        """No fragmentation pattern: any two scopes (conditions) are either contradictory or nested, and a
+        nested scope extends the smaller one only by values of fields defined in that smaller scope or deeper
+        -- then the fields present together always form one chain of scopes (in the tree: the children of
+        every node have pairwise contradictory requirements)."""
+        cs = []
+        for f in self.fields:
+            if f["cond"] not in cs:
+                cs.append(f["cond"])
+        sub = lambda a, b: all(b.get(i) == v for i, v in a.items())
         for a in cs:
             for b in cs:
-                if self.compatible(a, b):
-                    if not (all(b.get(i) == v for i, v in a.items()) or all(a.get(i) == v for i, v in b.items())):
-                        return False
+                if a is b or not (self.compatible(a, b) and self.compatible(b, a)):
+                    continue
+                if not (sub(a, b) or sub(b, a)):
+                    return False
+                if sub(a, b):
+                    for i in b:
+                        if i not in a:
+                            owners = self.resolve(i, b)
+                            if not owners or not sub(a, owners[0]["cond"]):
+                                return False
         return True
 
 
@@ -142,18 +157,49 @@ def gen_history(rng, style):
         insts.append(new)
         return len(insts) - 1
 
-    Lpre = rng.choice([4, 6, 8, 8, 12, 16, 24, 32, 34])
     explicit = style in ("explicit", "mixed")
+    Lpre = rng.choice([8, 12, 16, 16, 24, 32, 34]) if explicit else rng.choice([4, 6, 8, 8, 12, 16, 24, 32, 34])
     names = list(range(12))
     tags = [1, 2, 3]
-    target = rng.randint(1, 4) if style == "flat" else rng.randint(3, 14)
+    target = rng.randint(1, 4) if style == "flat" else rng.randint(3, 9 if explicit else 14)
+
+    shadow = dict(fields=[], children={})
+
+    def shadow_add(name, fv, commit):
+        """follow _Tree.add_field's descent on a shadow of the tree's shape: False = it would recurse for ever"""
+        node = shadow
+        fv = dict(fv)
+        while fv:
+            meet = tuple((i, fv[i]) for i in node["fields"] if i in fv)
+            if not meet:
+                return False
+            child = node["children"].get(meet)
+            if child is None:
+                if len(meet) != len(fv):
+                    return False
+                if commit:
+                    node["children"][meet] = dict(fields=[name], children={})
+                return True
+            for i, _ in meet:
+                del fv[i]
+            node = child
+        if commit:
+            node["fields"].append(name)
+        return True
+
+    def free_names(cond):
+        return [x for x in names if not any(f["name"] == x and compatible(f["cond"], cond) and compatible(cond, f["cond"])
+                                            for f in fields)]
 
     def add(n, name, depthcond):
+        if not shadow_add(name, insts[n], False) and rng.random() < 0.93:
+            return False
         length = None
         start = None
         r = rng.random()
         if r < 0.55:
-            length = rng.choice([1, 1, 2, 2, 3, 4, 5, 8]) if rng.random() < 0.93 else rng.choice([0, 13, 30, 34])
+            length = rng.choice([1, 1, 2, 2, 3, 4, 5, 8] if not explicit else [1, 1, 1, 2, 2, 3]) \
+                if rng.random() < 0.93 else rng.choice([0, 13, 30, 34])
         if explicit and rng.random() < 0.45:
             start = rng.randint(0, max(0, Lpre - 1)) if rng.random() < 0.93 else rng.choice([-1, Lpre, Lpre + 2])
         tg = [t for t in tags if rng.random() < 0.18]
@@ -170,6 +216,8 @@ def gen_history(rng, style):
                 if f["start"] is not None and compatible(f["cond"], cond) and compatible(cond, f["cond"]):
                     if e > f["start"] and f["start"] + (f["length"] or 1) > start:
                         ok = False
+        if ok:
+            ok = shadow_add(name, cond, True)
         if ok:
             fields.append(dict(name=name, cond=cond, length=length, start=start, max=1, fixed=False))
         return ok
@@ -208,7 +256,11 @@ def gen_history(rng, style):
                 if len(insts[n]) > 4:
                     continue
             # sibling scopes re-use names: prefer small names
-            name = rng.choice(names[:6]) if rng.random() < 0.7 else rng.choice(names)
+            free = free_names(insts[n])
+            if free and rng.random() < 0.9:
+                name = rng.choice(free[:4]) if rng.random() < 0.7 else rng.choice(free)
+            else:
+                name = rng.choice(names)
             if add(n, name, None):
                 made += 1
             elif rng.random() < 0.5:
@@ -425,8 +477,8 @@ def canon_model(o):
 def canon_impl(r):
     if r[0] == "other":
         return ["other"]
-    if r[0] in ("none", "z"):
-        return r[:2] if r[0] == "z" else ["none"]
+    if r[0] in ("none", "z", "err"):
+        return ["none"] if r[0] == "none" else list(r[:2])
     if r[0] == "fields":
         return ["fields", [list(x) for x in r[1]]]
     return list(r)
@@ -448,14 +500,14 @@ def oracle(c, res, report):
     byk = {}
     outs = res["outs"]
 
-    def check_layout(snap, where, fv=None):
+    def check_layout(snap, where, only=None):
         """positions reported for all fields (snap) -- co-present ones must be disjoint and inside"""
         pos = {}
         for k, s, l, tg in snap:
             if s is not None:
                 pos[k] = (s, l)
         fl.pos.update(pos)
-        fs = [f for f in fl.fields if f["k"] in pos and (fv is None or fl.present(f, fv))]
+        fs = [f for f in fl.fields if f["k"] in pos and (only is None or f in only)]
         for f in fs:
             s, l = pos[f["k"]]
             if s < 0 or l < 1 or s + l > L:
@@ -487,18 +539,19 @@ def oracle(c, res, report):
             name, length, start, tg = op[2], op[3], op[4], op[5]
             new = dict(k=k, name=name, cond=dict(fv), length=length, start=start, tags=list(tg), values=[])
             # explicit definitions that overlap or overflow must be rejected
-            if start is not None and length is not None:
-                if start >= 0 and start + length > L or start >= L >= 0 and start >= 0:
+            if start is not None and start >= 0:
+                lmin = length or 1            # an explicitly positioned field occupies at least one bit
+                if start + lmin > L or start >= L:
                     report("explicit-overflow-accepted", "add_field(%d, length=%r, start_at=%r) accepted in a %d-bit bit field"
                            % (name, length, start, L))
                 for f in fl.fields:
                     if fl.compatible(f["cond"], fv) and fl.compatible(fv, f["cond"]):
                         p = fl.pos.get(f["k"])
-                        if p is None and f["start"] is not None and f["length"] is not None:
-                            p = (f["start"], f["length"])
-                        if p is not None and start < p[0] + p[1] and p[0] < start + length:
+                        if p is None and f["start"] is not None and f["start"] >= 0:
+                            p = (f["start"], f["length"] or 1)
+                        if p is not None and start < p[0] + p[1] and p[0] < start + lmin:
                             report("explicit-overlap-accepted",
-                                   "add_field(%d, length=%d, start_at=%d) under %r accepted although field %d %r occupies [%d,%d)"
+                                   "add_field(%d, length=%r, start_at=%d) under %r accepted although field %d %r occupies [%d,%d)"
                                    % (name, length, start, fv, f["name"], f["cond"], p[0], p[0] + p[1]))
             if start is not None:
                 explicit_pos = True
@@ -529,19 +582,24 @@ def oracle(c, res, report):
                 # completeness: nothing explicitly positioned, co-present widths fit => must succeed
                 w = fl.max_copresent_width()
                 if w <= L:
-                    frag = (not fl.exclusive_children_shape()) or prior_layout
-                    report("firstfit-fragmentation" if frag else "assign-incomplete",
-                           "assign_fields raised although no field is explicitly positioned and the fields that can be "
-                           "present together need at most %d of the %d bits%s"
-                           % (w, L, " (first-fit fragmentation: scopes that are compatible without being nested"
-                                    + (", layout extended after an earlier assign_fields" if prior_layout else "") + ")"
-                              if frag else ""))
+                    if prior_layout:
+                        key, why = "firstfit-fragmentation-incremental", \
+                            " (positions fixed by an earlier assign_fields leave gaps the new fields do not fit in)"
+                    elif not fl.exclusive_children_shape():
+                        key, why = "firstfit-fragmentation", \
+                            " (first-fit fragmentation: scopes that are compatible without being nested)"
+                    else:
+                        key, why = "assign-incomplete", ""
+                    report(key, "assign_fields raised although no field is explicitly positioned and the fields that "
+                           "can be present together need at most %d of the %d bits%s" % (w, L, why))
+                for kk, s_, l_, tg_ in (r[2] if len(r) > 2 else []):
+                    if s_ is not None:
+                        fl.pos[kk] = (s_, l_)
                 prior_layout = prior_layout or bool(fl.pos)
         elif kind in ("value", "mask"):
             if r[0] != "z":
                 continue
             z, snap = r[1], r[2]
-            pos = check_layout(snap, "when %s returned (op %d)" % (kind, k), fv)
             tag, fld = op[2], op[3]
             pres = [f for f in fl.fields if fl.present(f, fv)]
             if fld is not None:
@@ -550,6 +608,7 @@ def oracle(c, res, report):
                 sel = [f for f in pres if tag in fl.expected_tags(f)]
             else:
                 sel = pres
+            pos = check_layout(snap, "when %s returned (op %d)" % (kind, k), sel)
             if any(f["k"] not in pos for f in sel):
                 report("key-from-unplaced", "%s returned %d although a selected field has no position" % (kind, z))
                 continue
@@ -568,12 +627,6 @@ def oracle(c, res, report):
                     elif (z >> s) & ((1 << l) - 1) != fv[f["name"]]:
                         report("readback", "get_value(tag=%r, field=%r) of %r is %#x: field %d at [%d,%d) reads %d"
                                % (tag, fld, fv, z, f["name"], s, s + l, (z >> s) & ((1 << l) - 1)))
-                want = 0
-                for f in sel:
-                    want |= bits(*pos[f["k"]])
-                if z & ~want:
-                    report("value-outside-mask", "get_value(tag=%r, field=%r) of %r is %#x, outside the selected fields %#x"
-                           % (tag, fld, fv, z, want))
         elif kind == "tags":
             if r[0] != "tags":
                 continue
@@ -772,14 +825,14 @@ def run(chk, args):
     chunks = [pcases[i:i + size] for i in range(0, len(pcases), size)]
     presults = [o for part in chk.impl_parallel("impl_c08.py", chunks) for o in part]
     nprobe = 0
-    for (i, probes), pres in zip(pidx, presults):
+    for (i, probes), pc, pres in zip(pidx, pcases, presults):
         if not isinstance(pres, dict) or "probes" not in pres:
             continue
         found = []
         oracle_probes(cases[i], flats[i], probes, pres, lambda key, what: found.append((key, what)))
         nprobe += len(probes)
         for key, what in found[:3]:
-            chk.fail_input(key, what, dict(case=cases[i], probes=pcases[pidx.index((i, probes))]["probes"]))
+            chk.fail_input(key, what, dict(case=cases[i], probes=pc["probes"]))
     chk.count("probes(complete assignments)", nprobe)
     # ---------------------------------------------------------------- auto length formula
     vals = autolen_values(chk.rng, 2000 if chk.tier == "quick" else 100000)
